@@ -245,7 +245,7 @@ func runC19(p *Program, r *Result) {
 								errOnly = false
 							}
 						}
-						for _, y := range x.Succs {
+						for _, y := range p.feasibleSuccs(x) {
 							walk(y)
 						}
 					}
